@@ -31,3 +31,16 @@ func (c *BetaController) UpdateBeta(body BetaBody) (BetaBody, error) {
 func (c *BetaController) ListBeta(filter []string) ([]BetaBody, error) {
 	return nil, nil
 }
+
+// Patches a beta (form fields)
+// @Method(PATCH)
+// @Route(/things/{thingId}/)
+// @Path(id, { name: "thingId" })
+// @FormField(label)
+// @FormField(weight)
+// @Response(202) Accepted
+// @ErrorResponse(409) Conflict
+// @ErrorResponse(422) Unprocessable
+func (c *BetaController) PatchBeta(id int, label string, weight *int) error {
+	return nil
+}
